@@ -114,7 +114,7 @@ func (c *confine) check(source string, ws map[string]string, detail func() any) 
 
 func main() {
 	r = ev.Start("C17", "model_checking")
-	r.Require("writeset-put", "writeset-delete", "real-tx-success", "real-tx-fail", "kind-validated-by-binding", "kind-validated-by-real-tx", "pair-disjoint")
+	r.Require("writeset-put", "writeset-delete", "real-tx-success", "real-tx-fail", "kind-validated-by-binding", "kind-validated-by-real-tx", "pair-disjoint", "audit-fee-timeout", "audit-fee-quorum")
 	e := gov.NewEnv(4)
 	vals := e.Vals
 	polyenv.Setup(0, vals)
@@ -476,6 +476,9 @@ func main() {
 	if len(validatedByTx) > 0 {
 		r.Class("kind-validated-by-real-tx")
 	}
+
+	// ---- (c) dynamic key audit for records keyed by mutable state (see audit.go)
+	cov["c_key_audit"] = keyAudit(kinds, e)
 
 	// ---- (b)(ii) pairwise collision search
 	type pairRes struct {
